@@ -110,7 +110,14 @@ func Load(repoDir, pattern string) (*Loaded, error) {
 			} else {
 				name = filepath.Base(path)
 			}
-			if name != "_" && name != "." {
+			if name == "." {
+				// dot import: generated code refers to the package by its real name
+				if ip, ok := imp[path]; ok {
+					imports[ip.Name()] = path
+				}
+				continue
+			}
+			if name != "_" {
 				imports[name] = path
 			}
 		}
@@ -119,7 +126,11 @@ func Load(repoDir, pattern string) (*Loaded, error) {
 	src, gerrs := gg.Generate()
 	ld.Errors = append(ld.Errors, gerrs...)
 	ld.GhostSrc = src
-	gf, err := parser.ParseFile(fset, filepath.Join(repoDir, "zz_verif_ghost_generated.go"), src, parser.ParseComments|parser.SkipObjectResolution)
+	pkgDir := repoDir
+	if len(p.GoFiles) > 0 {
+		pkgDir = filepath.Dir(p.GoFiles[0])
+	}
+	gf, err := parser.ParseFile(fset, filepath.Join(pkgDir, "zz_verif_ghost_generated.go"), src, parser.ParseComments|parser.SkipObjectResolution)
 	if err != nil {
 		return nil, fmt.Errorf("generated ghost file does not parse: %v\n%s", err, src)
 	}
